@@ -12,8 +12,9 @@ func plain(host int, crit bool) Role { return Role{Kind: KPlain, Host: host, Cri
 func hookTask(host int, after bool, w int, crit bool) Role {
 	return Role{Kind: KHookTask, Host: host, After: after, W: w, Crit: crit}
 }
-func hookCall(after bool, w int) Role { return Role{Kind: KHookCall, After: after, W: w} }
-func leaveCall(st int) Role           { return Role{Kind: KLeave, St: st} }
+func hookCall(after bool, w int) Role     { return Role{Kind: KHookCall, After: after, W: w} }
+func leaveCall(st int) Role               { return Role{Kind: KLeave, St: st} }
+func shared(host, ch int, crit bool) Role { return Role{Kind: KPlain, Host: host, Ch: ch, Crit: crit} }
 
 func corpus(tier string) ([]History, []string) {
 	var hs []History
@@ -197,6 +198,36 @@ func corpus(tier string) ([]History, []string) {
 		Op{K: "refuse", Ids: []int{tidOf(0, 1)}},
 		Op{K: "cleanup"},
 		Op{K: "cleanup"})
+	// seeded change C04-4 / fix C04-b: the claim path of reuseUnlockedTasks=true.  Unlocked running tasks exist
+	// at acquisition time only when they were released between the pre-deployment cleanup of a creation and
+	// its deployment (an overlapped creation); tasks that are still owned must never be claimed, in any state.
+	add("reuse-claims-released",
+		cr(0, []int{0}, shared(0, 3, true), plain(0, false)),
+		Op{K: "snap", E: 1},
+		Op{K: "destroy", E: 0, Keep: true},
+		Op{K: "finish", E: 1, Spec: &Spec{Hosts: []int{2}, Reuse: true, Roles: []Role{plain(1, false), shared(0, 3, true)}}},
+		Op{K: "cleanup"})
+	add("reuse-all-claimed",
+		cr(0, []int{0}, shared(0, 3, true)),
+		Op{K: "snap", E: 1},
+		Op{K: "destroy", E: 0, Keep: true},
+		Op{K: "finish", E: 1, Spec: &Spec{Hosts: []int{2}, Reuse: true, Roles: []Role{shared(0, 3, true)}}},
+		Op{K: "cleanup"})
+	add("reuse-owned-not-claimed",
+		cr(0, []int{0}, shared(0, 3, true), shared(1, 9, false)),
+		Op{K: "create", E: 1, Spec: &Spec{Hosts: []int{2}, Reuse: true, Roles: []Role{plain(2, true), shared(0, 3, false)}}},
+		Op{K: "control", E: 0, Ev: 2},
+		Op{K: "create", E: 2, Spec: &Spec{Hosts: []int{3}, Reuse: true, Roles: []Role{plain(3, true), shared(1, 9, false)}}},
+		Op{K: "control", E: 0, Ev: 3},
+		Op{K: "destroy", E: 1},
+		Op{K: "destroy", E: 2, Force: true},
+		Op{K: "destroy", E: 0})
+	add("reuse-configured-left-behind",
+		cr(0, []int{0}, shared(0, 3, true), plain(0, false)),
+		Op{K: "snap", E: 1},
+		Op{K: "destroy", E: 0, Force: true, Keep: true},
+		Op{K: "finish", E: 1, Spec: &Spec{Hosts: []int{2}, Reuse: true, Roles: []Role{plain(1, true), shared(0, 3, false)}}},
+		Op{K: "cleanup"})
 	add("create-undeployable",
 		Op{K: "create", E: 0, Spec: &Spec{Hosts: []int{0}, Fail: 4, Roles: []Role{plain(0, true)}}},
 		cr(1, []int{0}, plain(0, true)))
@@ -343,6 +374,28 @@ func genSpec(r *gen.Rand, envs []*genEnv, allowSlow bool) *Spec {
 	return s
 }
 
+// shareClasses: up to two plain roles of the workflow load one of three shared classes (at most one role
+// per class; class k runs on host k%5), and the creation may claim running unlocked tasks
+func shareClasses(r *gen.Rand, s *Spec) {
+	s.Reuse = r.Chance(3, 4)
+	used := map[int]bool{}
+	n := 0
+	for i := range s.Roles {
+		ro := &s.Roles[i]
+		if ro.Kind != KPlain || ro.Cfg || ro.Launch != 0 || n >= 2 || !r.Chance(1, 2) {
+			continue
+		}
+		ch := []int{3, 9, 11}[r.Intn(3)]
+		if used[ch] {
+			continue
+		}
+		used[ch] = true
+		ro.Ch = ch
+		ro.Host = ch % 5
+		n++
+	}
+}
+
 func specFails(s *Spec) bool {
 	if s.Fail != 0 {
 		return true
@@ -360,6 +413,7 @@ func randomHistory(r *gen.Rand, allowSlow bool) (History, string) {
 	// a history has either executor / agent failures or refused KILL calls (a task whose executor failed is
 	// not ACTIVE for the core but still live at the simulated master)
 	refusing := r.Chance(1, 3)
+	sharing := r.Chance(1, 4) // environments of this history share task classes and are created with reuseUnlockedTasks
 	envs := make([]*genEnv, 0, 4)
 	kind := "rand"
 	raced := false
@@ -408,6 +462,9 @@ func randomHistory(r *gen.Rand, allowSlow bool) (History, string) {
 		switch {
 		case (x < 30 || len(al) == 0 && len(pendingFinish) == 0) && len(envs) < 4:
 			s := genSpec(r, envs, allowSlow)
+			if sharing {
+				shareClasses(r, s)
+			}
 			ok := !specFails(s) && !conflicts(s)
 			envs = append(envs, &genEnv{spec: s, alive: ok, state: 2})
 			h.Ops = append(h.Ops, Op{K: "create", E: len(envs) - 1, Spec: s})
@@ -416,6 +473,9 @@ func randomHistory(r *gen.Rand, allowSlow bool) (History, string) {
 			s := genSpec(r, envs, false)
 			if s.Fail == 1 || s.Fail == 2 || s.Fail == 4 || s.Fail == 6 {
 				s.Fail = 0
+			}
+			if sharing {
+				shareClasses(r, s)
 			}
 			envs = append(envs, &genEnv{spec: s, pending: true})
 			pendingFinish = append(pendingFinish, len(envs)-1)
